@@ -294,6 +294,16 @@ def run_case(case):
                     if _norm(want) != _norm(got):
                         discs.append(Disc("call:body-differs", "__call__", "expected %r got %r" % (
                             [ast.unparse(ast.fix_missing_locations(s))[:60] for s in want], [ast.unparse(s)[:60] for s in got])))
+                    else:
+                        # second hop, same kind: the class just written is parsed with its __call__ merged in and emitted
+                        # again - the method body has to come through statement for statement
+                        ir2 = parse.class_(cls, merge_inner_function="__call__")
+                        cls2 = ast.parse(to_code(emit.class_(ir2, class_name=kinds.CLASS_NAME, emit_call=True))).body[0]
+                        call2 = [n for n in cls2.body if isinstance(n, ast.FunctionDef) and n.name == "__call__"]
+                        if len(call2) != 1:
+                            discs.append(Disc("call2:missing", "__call__", "re-emitted class has %d __call__ methods" % len(call2)))
+                        else:
+                            _cmp_bodies(got, _strip_doc(call2[0].body), discs, "call2")
             else:
                 ft = case["first"] or "static"
                 node = emit.function(ir, function_name=kinds.FUNC_NAME, function_type=ft)
